@@ -171,7 +171,39 @@ Proof.
   - vm_compute. discriminate.
 Qed.
 
+(** (iii) ORDER BY key captured by a later alias:  df.orderBy('a').withColumn('a', -a)  *)
+Theorem C03_refuted_order_key_capture :
+  exists raw opt input,
+    wf_frame input /\ equiv_check (cols input) raw opt = false /\ eval_chain raw input <> eval_chain opt input.
+Proof.
+  exists [mkBlock [] (passthrough ["a"%string]) false [mkKey (ECol "a") false true] None;
+          mkBlock [] [(ENeg (ECol "a"), "a"%string)] false [] None],
+         [mkBlock [] [(ENeg (ECol "a"), "a"%string)] false [mkKey (ECol "a") false true] None],
+         (mkFrame ["a"%string] [[VInt 1]; [VInt 2]]).
+  split; [|split].
+  - intros r [<-|[<-|[]]]; reflexivity.
+  - vm_compute. reflexivity.
+  - vm_compute. discriminate.
+Qed.
+
+(** (iii) a select item captured by a sibling alias:  df.toDF('d', 's', 'a')  on columns (a, b, s):
+    SELECT a AS d, b AS s, s AS a  is returned as  SELECT a AS d, b AS s, b AS a *)
+Theorem C03_refuted_sibling_alias_capture :
+  exists raw opt input,
+    wf_frame input /\ equiv_check (cols input) raw opt = false /\ eval_chain raw input <> eval_chain opt input.
+Proof.
+  exists [mkBlock [] [(ECol "a", "d"%string); (ECol "b", "s"%string); (ECol "s", "a"%string)] false [] None],
+         [mkBlock [] [(ECol "a", "d"%string); (ECol "b", "s"%string); (ECol "b", "a"%string)] false [] None],
+         (mkFrame ["a"; "b"; "s"]%string [[VInt 1; VInt 2; VStr "x"]]).
+  split; [|split].
+  - intros r [<-|[]]; reflexivity.
+  - vm_compute. reflexivity.
+  - vm_compute. discriminate.
+Qed.
+
 Print Assumptions C03_refuted_name_collision.
 Print Assumptions C03_refuted_unquoted.
 Print Assumptions C03_refuted_filter_below_limit.
 Print Assumptions C03_refuted_where_alias_capture.
+Print Assumptions C03_refuted_order_key_capture.
+Print Assumptions C03_refuted_sibling_alias_capture.
